@@ -74,14 +74,21 @@ CLAIMED = {
         text="Theorems: identifier lookup / reverse lookup mutually inverse and every page wired to the encoding its Windows "
              "identifier names (finite, over tables regenerated from codepage.rs, against a reference list); the 1024-byte refill "
              "loop of CodePage::encode equals per-character concatenation for strings of EVERY length, for any encoder meeting "
-             "an explicit step contract (Section hypotheses, instantiated in an Example); US-ASCII laws and UTF-8 "
+             "an explicit step contract (instantiated for the single-byte encoders: C14_sb_loop); US-ASCII laws and UTF-8 "
              "decode(encode s) = s for all scalar strings (WHATWG decoder transcribed); decode sniffs no BOM (generated flag).  "
-             "The multi-byte tables of encoding_rs stay outside Coq: the per-character law, the reference wiring and decoding of all "
-             "1/2-byte sequences are checked EXHAUSTIVELY on the implementation (1,112,064 scalars x 26 pages) on every run, plus "
-             "strings straddling the buffer boundary.  Two residues inside encoding_rs are listed as known findings.",
-        note="Trusted: Coq kernel, translator, extraction, harness; encoding_rs (encoder step contract = hypothesis of C14_loop; "
-             "its tables are validated by the exhaustive sweep, not proved); reference list of encodings per identifier.",
-        technique="Coq proof (loop invariant, UTF-8 arithmetic via lia, vm_compute over generated tables) + exhaustive finite sweep on the implementation",
+             "props/C14_singlebyte.v: the 19 single-byte pages wired by codepage.rs (windows-1250..1258, ISO 8859-2..8, "
+             "Macintosh Roman/Cyrillic, 8859-1 as windows-1252) are INSIDE the model: their 128-entry index tables are regenerated "
+             "from the encoding_rs release pinned by Cargo.lock, proved well formed (vm_compute), and for ANY well-formed table and "
+             "EVERY character the encoded byte decodes back to the character or is '?', representable characters are never "
+             "replaced, unrepresentable ones always are, strings of every length round-trip, decoding accepts any bytes; model and "
+             "implementation are compared exhaustively (all 256 bytes, every code point of the blocks the tables draw from).  "
+             "The multi-byte tables (932, 936, 949, 950/951) stay outside Coq: the per-character law, the reference wiring and "
+             "decoding of all 1/2-byte sequences are checked EXHAUSTIVELY on the implementation (1,112,064 scalars x 26 pages) on "
+             "every run, plus strings straddling the buffer boundary.  Two residues inside encoding_rs are listed as known findings.",
+        note="Trusted: Coq kernel, translator (incl. its reading of encoding_rs/src/data.rs in the cargo registry), extraction, "
+             "harness; encoding_rs' multi-byte tables (validated by the exhaustive sweep, not proved); reference list of encodings "
+             "per identifier.",
+        technique="Coq proof (loop invariant, UTF-8 arithmetic via lia, general lemmas over index tables + vm_compute over generated tables) + exhaustive finite sweep on the implementation",
         design="4 C14"),
     "C06": dict(
         text="Theorems over the model of column.rs / package.rs: the 16-bit type word round-trips for every storable type and flag "
